@@ -166,8 +166,34 @@ func (s *CeremonySim) deliver(r *Replica, raw []byte) error {
 	return err
 }
 
+// resync models the periodic mempool synchronisation between peers: every third block each
+// gossiping replica gets, with probability 1/2 per tx, what the reference pool still holds.
+func (s *CeremonySim) resync() {
+	if s.blockNo%3 != 0 {
+		return
+	}
+	pending := s.W.Replicas[0].TxPool.VerifAll()
+	if len(pending) == 0 {
+		return
+	}
+	sort.Slice(pending, func(i, j int) bool { return pending[i].AccountNonce < pending[j].AccountNonce })
+	for i, r := range s.W.Replicas {
+		if i == 0 || !r.Alive || s.profile(r).Blind {
+			continue
+		}
+		for _, tx := range pending {
+			if s.R.Bool() && r.TxPool.GetTx(tx.Hash()) == nil {
+				if raw, err := tx.ToBytes(); err == nil {
+					s.deliver(r, raw)
+				}
+			}
+		}
+	}
+}
+
 // flush delivers what is due, per replica in a PRNG order.
 func (s *CeremonySim) flush() {
+	s.resync()
 	for _, r := range s.W.Replicas {
 		q := s.queues[r]
 		if len(q) == 0 {
